@@ -691,6 +691,16 @@ func (s *MsgSpec) Sign(m *mail.Msg) error {
 			return m.SignWithKeypair(k.RSAKey384, k.RSACert384, i384)
 		}
 		return m.SignWithKeypair(k.ECKey384, k.ECCert384, i384)
+	case "ecdsa-p384", "ecdsa-p521":
+		// ECDSA keys on the larger NIST curves (the digest the library signs with and announces stays SHA-256)
+		key, certR, certI := k.ECKeyP384, k.ECCertP384, k.ECCertP384I
+		if s.SMIME == "ecdsa-p521" {
+			key, certR, certI = k.ECKeyP521, k.ECCertP521, k.ECCertP521I
+		}
+		if s.WithInt {
+			return m.SignWithKeypair(key, certI, inter)
+		}
+		return m.SignWithKeypair(key, certR, nil)
 	case "rsa-sameserial":
 		// the intermediate is always given: it has the same serial number as the leaf it issued
 		return m.SignWithKeypair(k.RSAKeySame, k.RSACertSame, k.InterSameCert)
@@ -737,6 +747,14 @@ func (k *KeySet) TLSCert(kind string, withInt bool) *tls.Certificate {
 		c = &tls.Certificate{Certificate: [][]byte{k.ECCert384.Raw, k.Inter384Cert.Raw}, PrivateKey: k.ECKey384, Leaf: k.ECCert384}
 	case kind == "ecdsa-ca384":
 		c = &tls.Certificate{Certificate: [][]byte{k.ECCert384.Raw}, PrivateKey: k.ECKey384, Leaf: k.ECCert384}
+	case kind == "ecdsa-p384" && withInt:
+		c = &tls.Certificate{Certificate: [][]byte{k.ECCertP384I.Raw, k.InterCert.Raw}, PrivateKey: k.ECKeyP384, Leaf: k.ECCertP384I}
+	case kind == "ecdsa-p384":
+		c = &tls.Certificate{Certificate: [][]byte{k.ECCertP384.Raw}, PrivateKey: k.ECKeyP384, Leaf: k.ECCertP384}
+	case kind == "ecdsa-p521" && withInt:
+		c = &tls.Certificate{Certificate: [][]byte{k.ECCertP521I.Raw, k.InterCert.Raw}, PrivateKey: k.ECKeyP521, Leaf: k.ECCertP521I}
+	case kind == "ecdsa-p521":
+		c = &tls.Certificate{Certificate: [][]byte{k.ECCertP521.Raw}, PrivateKey: k.ECKeyP521, Leaf: k.ECCertP521}
 	case kind == "rsa-sameserial":
 		c = &tls.Certificate{Certificate: [][]byte{k.RSACertSame.Raw, k.InterSameCert.Raw}, PrivateKey: k.RSAKeySame, Leaf: k.RSACertSame}
 	case kind == "rsa-utf8issuer":
@@ -787,6 +805,9 @@ type KeySet struct {
 	RSAKey384    *rsa.PrivateKey
 	RSACert384   *x509.Certificate
 	ECKey384     *ecdsa.PrivateKey
+	// leaf keys on P-384 / P-521, each with a certificate issued by the root and one issued by the intermediate
+	ECKeyP384, ECKeyP521                               *ecdsa.PrivateKey
+	ECCertP384, ECCertP384I, ECCertP521, ECCertP521I *x509.Certificate
 	ECCert384    *x509.Certificate
 	// a CA and a leaf that carry the same serial number (serial numbers are unique per issuer only)
 	InterSameCert *x509.Certificate
@@ -856,6 +877,12 @@ func Keys() *KeySet {
 		k.RSACert384 = mk("rsa leaf via p384 intermediate", false, &k.RSAKey384.PublicKey, k.Inter384Key, k.Inter384Cert, 9)
 		k.ECKey384, _ = ecdsa.GenerateKey(elliptic.P256(), rand.Reader)
 		k.ECCert384 = mk("ec leaf via p384 intermediate", false, &k.ECKey384.PublicKey, k.Inter384Key, k.Inter384Cert, 10)
+		k.ECKeyP384, _ = ecdsa.GenerateKey(elliptic.P384(), rand.Reader)
+		k.ECCertP384 = mk("ec p384 leaf", false, &k.ECKeyP384.PublicKey, k.RootKey, k.RootCert, 21)
+		k.ECCertP384I = mk("ec p384 leaf via intermediate", false, &k.ECKeyP384.PublicKey, k.InterKey, k.InterCert, 22)
+		k.ECKeyP521, _ = ecdsa.GenerateKey(elliptic.P521(), rand.Reader)
+		k.ECCertP521 = mk("ec p521 leaf", false, &k.ECKeyP521.PublicKey, k.RootKey, k.RootCert, 23)
+		k.ECCertP521I = mk("ec p521 leaf via intermediate", false, &k.ECKeyP521.PublicKey, k.InterKey, k.InterCert, 24)
 		k.InterSameKey, _ = ecdsa.GenerateKey(elliptic.P256(), rand.Reader)
 		k.InterSameCert = mk("verif intermediate, serial 1", true, &k.InterSameKey.PublicKey, k.RootKey, k.RootCert, 50)
 		k.RSAKeySame, _ = rsa.GenerateKey(rand.Reader, 2048)
